@@ -430,9 +430,19 @@ def instance_args(pb, action):
 
 
 def split_incdec(orig, variant):
-    """the variant has more increase/decrease effects than the original action (an effect was split)."""
-    n = lambda act: sum(1 for e in act.effects if e.is_increase() or e.is_decrease())
-    return n(variant) > n(orig)
+    """the variant has more increase/decrease effects on some fluent than the original action (an effect was split; counted per
+    written fluent, because the compiler also drops effects whose condition simplifies to false)."""
+
+    def n(act):
+        out = {}
+        for e in act.effects:
+            if e.is_increase() or e.is_decrease():
+                fe = e.fluent.arg(0) if e.fluent.is_dot() else e.fluent
+                out[str(fe)] = out.get(str(fe), 0) + 1
+        return out
+
+    no, nv = n(orig), n(variant)
+    return any(c > no.get(k, 0) for k, c in nv.items())
 
 
 def effect_kinds_on(action, diff):
